@@ -381,6 +381,22 @@ def _re_func(kind):
     return f
 
 
+def _re_sub(i, args, kw, st, node):
+    import re as _re
+    if len(args) >= 3 and all(isinstance(a, str) for a in args[:3]) or len(args) >= 3 and all(isinstance(a, bytes) for a in args[:3]):
+        flags = kw.get("flags", args[4] if len(args) > 4 else 0)
+        count = kw.get("count", args[3] if len(args) > 3 else 0)
+        nm = getattr(flags, "name", None)
+        if isinstance(nm, str) and nm.startswith("re.") and nm[3:] in ("DOTALL", "S", "I", "IGNORECASE", "M", "MULTILINE", "X", "VERBOSE", "A", "ASCII"):
+            flags = int(getattr(_re, nm[3:]))
+        if isinstance(flags, int) and isinstance(count, int):
+            try:
+                return _re.sub(args[0], args[1], args[2], count=count, flags=flags)
+            except Exception:
+                return UNK
+    return UNK
+
+
 def call_method(interp, base, attr, args, kwargs, st, node):
     import re as _re
     if isinstance(base, _re.Pattern):
@@ -1210,7 +1226,7 @@ EXT_MODELS = {
     "repr": m_unknown("str"), "super": m_super,
     "struct.pack": m_struct_pack, "struct.unpack": m_struct_unpack,
     "collections.deque": lambda i, a, k, s, n: ADeque(a[0]) if (len(a) == 1 and isinstance(a[0], (list, tuple)) and not k) else (ADeque() if not a and not k else UNK),
-    "re.compile": _re_compile, "re.match": _re_func("match"), "re.search": _re_func("search"), "re.fullmatch": _re_func("fullmatch"),
+    "re.sub": _re_sub, "re.compile": _re_compile, "re.match": _re_func("match"), "re.search": _re_func("search"), "re.fullmatch": _re_func("fullmatch"),
     "struct.calcsize": lambda i, a, k, s, n: struct.calcsize(a[0]) if a and isinstance(a[0], str) else Unknown("int"),
     "binascii.unhexlify": m_unhexlify, "binascii.hexlify": m_hexlify,
     "binascii.a2b_hex": m_unhexlify, "binascii.b2a_hex": m_hexlify,
